@@ -12,10 +12,19 @@ tie    : * exact correspondence (Rat) with the compiled kernels
            `GeoGrid.angular_distance`, `Grid.euclidean_distance`,
            `GeoGrid.node_number`, `GeoNetwork.node_weights`,
            `*area_weighted_connectivity` under the property's tolerances
+         * round 2: exact correspondence (Rat) with `convert_lon_coordinates`,
+           `max_link_distance`, `(in|out|)average_link_distance(geometry_corrected)`
+           on the implementation's own distance matrix; the translator
+           translate/gen_C12.py regenerates Generated/StructC12.lean (loops,
+           expressions, clamps, stores, wiring) for the `src_*` theorems
 search : float64 closed forms (atan2 form cross-checked with haversine),
          bitwise symmetry, diagonal, range, triangle inequality over all
          triples, brute-force argmin in `Fraction`, `itertools.product`,
-         `cos(lat_i)` per node, link-distance measures from the closed form
+         `cos(lat_i)` per node, link-distance measures from the closed form;
+         round 2: twin objects (caller array width / layout, node permutation,
+         power-of-two rescaling), histories on one object, geometry_corrected,
+         area-weighted distance measures, the cosine-error hypotheses of theorem
+         angular_entry_error_combined measured on every run
 """
 import itertools
 import math
@@ -273,6 +282,47 @@ def gen_euc_coords(rng, d, n):
     return kind, X
 
 
+def twin_1d(rng, vals):
+    """the same (float32-representable) values as a caller array of another width / layout"""
+    a = np.array(vals, dtype=np.float64)
+    kind = rng.choice(["f32", "strided", "int", "f16-or-f32"])
+    if kind == "strided":
+        buf = np.zeros(2 * len(a) + 1)
+        buf[1::2] = a
+        return kind, buf[1::2]
+    if kind == "int" and all(float(v).is_integer() for v in vals):
+        return kind, a.astype(np.int64)
+    if kind == "f16-or-f32" and np.array_equal(a.astype(np.float16).astype(np.float64), a):
+        return "f16", a.astype(np.float16)
+    return "f32", a.astype(np.float32)
+
+
+def twin_2d(rng, X):
+    a = np.array(X, dtype=np.float64)
+    kind = rng.choice(["f32", "fortran", "transposed-view", "int"])
+    if kind == "fortran":
+        return kind, np.asfortranarray(a)
+    if kind == "transposed-view":
+        return kind, np.ascontiguousarray(a.T).T
+    if kind == "int" and np.array_equal(a, np.round(a)):
+        return kind, a.astype(np.int64)
+    return "f32", a.astype(np.float32)
+
+
+# hypotheses of theorem `angular_entry_error_combined` (m = MEND), measured on every run
+MEND = 0.05
+ETA_END = 2.0 ** -21 - 2.0 ** -39
+ETA_ALL = 2.0 ** -10 * 2 * math.sin(MEND) / math.pi
+
+
+def cos_matrix(lat32, lon32):
+    """float64 value of the exact cosine  <v_i, v_j>  of the float32-stored coordinates"""
+    la = np.radians(np.asarray(lat32, dtype=np.float64))
+    lo = np.radians(np.asarray(lon32, dtype=np.float64))
+    return (np.sin(la)[:, None] * np.sin(la)[None, :]
+            + np.cos(la)[:, None] * np.cos(la)[None, :] * np.cos(lo[:, None] - lo[None, :]))
+
+
 # --------------------------------------------------------------------------
 
 def run(ctx):
@@ -283,7 +333,7 @@ def run(ctx):
     from pyunicorn.core.spatial_network import SpatialNetwork
     rng = ctx.rng
     quick = ctx.tier == "quick"
-    S = 3 if quick else 40           # budget scale
+    S = 3 if quick else 120          # budget scale (thorough: ~6 min)
     ctx.rule = (
         "kernel level: dyadic sine/cosine tables (k/16, |k|<=20, incl. values that make the "
         "expression leave [-1,1]) and dyadic coordinates (k/4) for which float32 arithmetic is "
@@ -293,12 +343,22 @@ def run(ctx):
         "nodes, near nodes, poles and random points; rectangular grids with 1-4 axes of length "
         "0-4; distinct = distinct (suite, canonical input); non-trivial = at least 2 nodes "
         "(distance suites), at least 2 nodes at different distances (lookups), at least two "
-        "axes of length >= 2 (rect grids)")
+        "axes of length >= 2 (rect grids); round 2: caller arrays as float64 / float32 / float16 / "
+        "int64 / strided / Fortran / transposed views; node permutations; Euclidean coordinates "
+        "rescaled by 2^-10..2^30, lookups by 2^-20..2^40; 2-5 step histories on one grid / network "
+        "object; adjacency random / empty / isolated node / complete; geometry_corrected both ways; "
+        "longitudes k/4 in [-400, 800] for convert_lon_coordinates with sequences shorter / longer "
+        "than the grid")
     ctx.trusted = common.DEFAULT_TRUSTED + [
         "IEEE-754: float32 arithmetic on the dyadic kernel inputs is exact (all intermediate "
         "values have < 24 significant bits) — the reason the Rat model can be compared exactly",
-        "float32 rounding-error bounds (2^-10 abs, 2^-17 rel on [0.25, pi-0.25], 2^-20 rel "
-        "Euclidean) are sampled, not proved (partial)",
+        "angular accuracy: proved from a bound eta on the float32 evaluation error of the cosine "
+        "(theorems angular_entry_*); eta itself is sampled (cosine_error_observed), as are the angle "
+        "errors (2^-10 abs, 2^-17 rel on [0.25, pi-0.25]) (partial)",
+        "Euclidean accuracy 2^-20: proved under the standard model of floating point arithmetic "
+        "(|rnd v - v| <= 2^-24 |v| per operation, powf within 1 ulp, no overflow / underflow, <= 6 "
+        "dimensions: theorem euclidean_entry_accuracy_float32); that the hardware satisfies the "
+        "model is trusted, the bound is also sampled",
         "libm / numpy sin, cos, arccos, sqrt, powf: modelled as the real functions",
     ]
     ctx.assumptions = [
@@ -319,12 +379,13 @@ def run(ctx):
     suite_kernel_euclid(ctx, K, rng, 200 * S, 4 if quick else 6)
     suite_grid_node_number(ctx, Grid, rng, 250 * S)
     suite_rect(ctx, Grid, GeoGrid, rng, 150 * S)
-    suite_angular(ctx, GeoGrid, rng, 120 * S)
+    suite_angular(ctx, GeoGrid, rng, 120 * S, K)
     suite_euclid(ctx, Grid, rng, 120 * S, 4 if quick else 6)
     suite_geo_node_number(ctx, GeoGrid, rng, 60 * S)
     suite_weights(ctx, GeoGrid, GeoNetwork, rng, 60 * S)
     suite_link_distance(ctx, Grid, GeoGrid, GeoNetwork, SpatialNetwork, rng, 30 * S)
     suite_climate_weights(ctx, GeoGrid, rng, 24 * S)
+    suite_convlon(ctx, GeoGrid, rng, 80 * S)
 
 
 # --------------------------------------------------------------------------
@@ -469,11 +530,32 @@ def suite_grid_node_number(ctx, Grid, rng, ncases):
             q = [Fr(rng.randrange(-span, span + 1)) for _ in range(d)]
         g = Grid(np.arange(2), np.array([[float(v) for v in r] for r in X]).reshape(d, n),
                  silence_level=3)
+        qf = [float(v) for v in q]
+        qc = rng.choice(["tuple", "list", "f64", "f32", "int"])
+        if qc == "int" and not all(v.is_integer() for v in qf):
+            qc = "tuple"
+        qx = {"tuple": tuple(qf), "list": list(qf), "f64": np.array(qf),
+              "f32": np.array(qf, dtype=np.float32),
+              "int": np.array(qf).astype(np.int64) if qc == "int" else None}[qc]
+        ctx.count(f"grid-node_number:x-as={qc}")
         try:
-            got = g.node_number(tuple(float(v) for v in q))
+            got = g.node_number(qx)
             ans = str(int(got))
         except Exception as e:  # noqa
             got, ans = None, "raise:" + type(e).__name__
+        if got is not None and rng.random() < 0.3:
+            # twin: grid and query rescaled by the same power of two (exact) -> same node
+            k = rng.choice([-20, -7, 5, 18, 40])
+            g2 = Grid(np.arange(2), np.array([[float(v) for v in r] for r in X]).reshape(d, n)
+                      * 2.0 ** k, silence_level=3)
+            got2 = int(g2.node_number(tuple(v * 2.0 ** k for v in qf)))
+            ctx.count("grid-node_number:scaled-twin")
+            if got2 != int(got):
+                ctx.fail({"kind": "lookup", "class": "Grid", "method": "node_number",
+                          "clause": "power-of-two-scaling"},
+                         f"Grid.node_number returns node {got2} after rescaling grid and query by "
+                         f"2^{k}, node {int(got)} before",
+                         {"space_seq": enc_ratmat(X), "x": enc_rats(q), "scale_log2": k})
         reqs.append(f"gridnn {d} {n} {enc_ratmat(X)} {enc_rats(q)}")
         impl.append(ans)
         s2 = [sum((X[k][i] - q[k]) ** 2 for k in range(d)) for i in range(n)]
@@ -596,9 +678,11 @@ def suite_rect(ctx, Grid, GeoGrid, rng, ncases):
 # E. GeoGrid.angular_distance
 # --------------------------------------------------------------------------
 
-def suite_angular(ctx, GeoGrid, rng, ncases):
+def suite_angular(ctx, GeoGrid, rng, ncases, K):
+    from pyunicorn.core._ext.types import to_cy, FIELD
     reqs, outs, metas = [], [], []
     stats = {"abs": 0.0, "rel": 0.0, "pairs": 0}
+    eta = {"all": 0.0, "end": 0.0, "pairs": 0, "end_pairs": 0}
     for c in range(ncases):
         n = rng.choice([1, 2, 3, 5, 8, 12, 16])
         kind, lat, lon = gen_geo_coords(rng, n)
@@ -636,6 +720,21 @@ def suite_angular(ctx, GeoGrid, rng, ncases):
             stats["pairs"] += n * n
         if not np.array_equal(D, D2, equal_nan=True):
             viol.append(("distance-alias", "GeoGrid.distance() != angular_distance()"))
+        viol += angular_twins(ctx, GeoGrid, rng, g, lat, lon, D)
+        # the error of the stored cosine (hypotheses of theorem angular_entry_error_combined)
+        if n and not np.isnan(D).any():
+            C32 = np.zeros((n, n), dtype=FIELD)
+            K._calculate_angular_distance(to_cy(g.cos_lat(), FIELD), to_cy(g.sin_lat(), FIELD),
+                                          to_cy(g.cos_lon(), FIELD), to_cy(g.sin_lon(), FIELD),
+                                          C32, n)
+            dc = np.abs(C32.astype(np.float64) - cos_matrix(lat32, lon32))
+            Dd = D.astype(np.float64)
+            endz = ~((R >= MEND) & (R <= math.pi - MEND) & (Dd >= MEND) & (Dd <= math.pi - MEND))
+            eta["all"] = max(eta["all"], float(dc.max()))
+            eta["pairs"] += n * n
+            if endz.any():
+                eta["end"] = max(eta["end"], float(dc[endz].max()))
+                eta["end_pairs"] += int(endz.sum())
         for clause, what in viol:
             ctx.fail({"kind": "angular", "class": "GeoGrid", "method": "angular_distance",
                       "clause": clause},
@@ -661,6 +760,15 @@ def suite_angular(ctx, GeoGrid, rng, ncases):
             return f"relative difference {(err[mid] / Mm[mid]).max():.3e} > 2^-17"
         return None
 
+    lg = lambda v: round(math.log2(v), 2) if v else None     # noqa: E731
+    ctx.extra["cosine_error_observed"] = {
+        "theorem": "angular_entry_error_combined with m = 0.05, bound = 2^-10",
+        "pairs": eta["pairs"], "end_zone_pairs": eta["end_pairs"],
+        "max_eta_all_log2": lg(eta["all"]), "max_eta_end_log2": lg(eta["end"]),
+        "hypothesis_eta_end_log2": lg(ETA_END), "hypothesis_eta_all_log2": lg(ETA_ALL),
+        "hypotheses_hold_on_sample": eta["all"] <= ETA_ALL and eta["end"] <= ETA_END}
+    ctx.count("angular:cosine-error-hypotheses-hold",
+              int(eta["all"] <= ETA_ALL and eta["end"] <= ETA_END))
     ctx.extra["angular_error_observed"] = {
         "pairs": stats["pairs"],
         "max_abs_err_log2": round(math.log2(stats["abs"]), 2) if stats["abs"] else None,
@@ -697,6 +805,7 @@ def suite_euclid(ctx, Grid, rng, ncases, maxdim):
         viol = euc_violations(D, R)
         if not np.array_equal(D, D2, equal_nan=True):
             viol.append(("distance-alias", "Grid.distance() != euclidean_distance()"))
+        viol += euclid_twins(ctx, Grid, rng, g, X, d, n, D, kind)
         for clause, what in viol:
             ctx.fail({"kind": "euclid", "class": "Grid", "method": "euclidean_distance",
                       "clause": clause},
@@ -753,8 +862,20 @@ def suite_geo_node_number(ctx, GeoGrid, rng, ngrids):
                 ql, qo = f32(rng.uniform(-90, 90)), rng.choice([180.0, -180.0])
             else:
                 ql, qo = f32(rng.uniform(-90, 90)), f32(rng.uniform(-180, 360))
+            qt = rng.choice(["float", "float", "f32", "f64", "int"])
+            if qt == "f32":
+                ql, qo = f32(ql), f32(qo)
+                qa, qb = np.float32(ql), np.float32(qo)
+            elif qt == "f64":
+                qa, qb = np.float64(ql), np.float64(qo)
+            elif qt == "int":
+                ql, qo = float(round(ql)), float(round(qo))
+                qa, qb = int(ql), int(qo)
+            else:
+                qa, qb = ql, qo
+            ctx.count(f"geo-node_number:query-type={qt}")
             try:
-                got = int(g.node_number(lat_node=ql, lon_node=qo))
+                got = int(g.node_number(lat_node=qa, lon_node=qb))
                 ans = str(got)
             except Exception as e:  # noqa
                 got, ans = None, "raise:" + type(e).__name__
@@ -821,19 +942,47 @@ def suite_weights(ctx, GeoGrid, GeoNetwork, rng, ncases):
         lon = [f32(rng.uniform(-180, 180)) for _ in range(n)]
         directed = rng.random() < 0.5
         A = rand_adj(rng, n, directed)
-        g = GeoGrid(np.arange(2), np.array(lat), np.array(lon), silence_level=3)
+        ak, lat_arr = twin_1d(rng, lat) if rng.random() < 0.4 else ("f64", np.array(lat))
+        ctx.count(f"weights:lat-array={ak}")
+        g = GeoGrid(np.arange(2), lat_arr, np.array(lon), silence_level=3)
         cosl = [math.cos(math.radians(v)) for v in lat]
         wt = rng.choice(["surface", "irrigation", None])
-        via = rng.choice(["init", "setter"])
+        via = rng.choice(["init", "setter", "history", "history"])
         try:
             if via == "init":
                 net = GeoNetwork(g, adjacency=A, directed=directed, node_weight_type=wt,
                                  silence_level=3)
-            else:
+            elif via == "setter":
                 net = GeoNetwork(g, adjacency=A, directed=directed,
                                  node_weight_type=rng.choice(["surface", "irrigation", None]),
                                  silence_level=3)
                 net.set_node_weight_type(wt)
+            else:
+                # a history of weight types on one object, with measures that cache values
+                # derived from the weights evaluated in between
+                net = GeoNetwork(g, adjacency=A, directed=directed,
+                                 node_weight_type=rng.choice(["surface", "irrigation", None]),
+                                 silence_level=3)
+                steps = [rng.choice(["surface", "irrigation", None, "invalid-name"])
+                         for _ in range(rng.randrange(2, 5))] + [wt]
+                for st in steps:
+                    net.area_weighted_connectivity(), net.nsi_degree()
+                    net.set_node_weight_type(st)
+                    ws = net.node_weights
+                    es = {"surface": cosl, "irrigation": [v * v for v in cosl]}.get(st, [1.0] * n)
+                    if ws is None or len(ws) != n or \
+                            any(abs(float(ws[i]) - es[i]) > TOL_W for i in range(n)) or \
+                            abs(net.total_node_weight - math.fsum(es)) > n * TOL_W:
+                        ctx.fail({"kind": "weights", "class": "GeoNetwork",
+                                  "method": "set_node_weight_type", "node_weight_type": str(st),
+                                  "via": "history"},
+                                 f"after the history {steps} of set_node_weight_type calls the "
+                                 f"weights for {st!r} are not cos(lat_i) / cos^2(lat_i) / 1",
+                                 {"lat": lat, "history": [str(x) for x in steps], "failed_at": str(st),
+                                  "expected": es,
+                                  "observed": None if ws is None else [float(v) for v in ws]})
+                        break
+                ctx.count("weights:history-steps", len(steps))
             w = net.node_weights
         except Exception as e:  # noqa
             ctx.fail({"kind": "weights", "class": "GeoNetwork", "error": type(e).__name__},
@@ -914,15 +1063,26 @@ def suite_weights(ctx, GeoGrid, GeoNetwork, rng, ncases):
 # --------------------------------------------------------------------------
 
 def suite_link_distance(ctx, Grid, GeoGrid, GeoNetwork, SpatialNetwork, rng, ncases):
+    mreqs, mimpl = [], []       # exact requests: (request, implementation values, kind)
     for c in range(ncases):
-        n = rng.choice([3, 5, 8])
+        n = rng.choice([2, 3, 5, 8])
         directed = rng.random() < 0.5
-        A = rand_adj(rng, n, directed)
         geo = rng.random() < 0.5
         if geo:
             _, lat, lon = gen_geo_coords(rng, n)
             n = len(lat)
-            A = rand_adj(rng, n, directed)
+        A = rand_adj(rng, n, directed)
+        shape = rng.choice(["random", "random", "random", "empty", "isolated", "complete"])
+        if shape == "empty":
+            A[:] = 0
+        elif shape == "isolated":
+            i0 = rng.randrange(n)
+            A[i0, :] = 0
+            A[:, i0] = 0
+        elif shape == "complete":
+            A[:] = 1
+            np.fill_diagonal(A, 0)
+        if geo:
             g = GeoGrid(np.arange(2), np.array(lat), np.array(lon), silence_level=3)
             net = GeoNetwork(g, adjacency=A, directed=directed, silence_level=3)
             R = gc_matrix(g.lat_sequence(), g.lon_sequence())
@@ -937,36 +1097,130 @@ def suite_link_distance(ctx, Grid, GeoGrid, GeoNetwork, SpatialNetwork, rng, nca
             tol = REL_EUC * max(1.0, float(R.max())) * 4
             desc = {"space_seq": X}
         ctx.count(f"link-distance:{'geo' if geo else 'euclid'}:directed={directed}")
+        ctx.count(f"link-distance:adjacency={shape}")
         ctx.case(("ld", str(desc), A.tobytes().hex(), directed), A.sum() > 0)
         Au = ((A + A.T) > 0).astype(int)
         Ai = A.astype(int)
         outdeg, indeg = Ai.sum(axis=1), Ai.sum(axis=0)
+        rowmean = R.mean(axis=1)
         exp = {
-            "max_link_distance": [max((R[i, j] for j in range(n) if Au[i, j]), default=0.0)
-                                  for i in range(n)],
-            "outaverage_link_distance": [
+            ("max_link_distance", False): [
+                max((R[i, j] for j in range(n) if Au[i, j]), default=0.0) for i in range(n)],
+            ("outaverage_link_distance", False): [
                 math.fsum(R[i, j] for j in range(n) if Ai[i, j]) / outdeg[i] if outdeg[i] else 0.0
                 for i in range(n)],
-            "inaverage_link_distance": [
+            ("inaverage_link_distance", False): [
                 math.fsum(R[i, j] for i in range(n) if Ai[i, j]) / indeg[j] if indeg[j] else 0.0
                 for j in range(n)],
         }
         if not directed:
-            exp["average_link_distance"] = exp["outaverage_link_distance"]
-        for nm, e in exp.items():
+            exp[("average_link_distance", False)] = exp[("outaverage_link_distance", False)]
+        # geometry_corrected=True: divided by the node's mean distance to all nodes
+        for (nm, _), e in list(exp.items()):
+            if nm != "max_link_distance":
+                exp[(nm, True)] = [e[i] / rowmean[i] if rowmean[i] > 0 else None for i in range(n)]
+        if geo:
+            cosl = [math.cos(math.radians(float(v))) for v in g.lat_sequence()]
+            tot = math.fsum(cosl)
+            inn = [math.fsum(cosl[i] * Ai[i, j] for i in range(n)) / tot for j in range(n)]
+            out = [math.fsum(cosl[j] * Ai[i, j] for j in range(n)) / tot for i in range(n)]
+            # area weighted measures built on the distances (cos of the *neighbour's* latitude)
+            exp[("outtotal_link_distance", False)] = [
+                a * b for a, b in zip(exp[("outaverage_link_distance", False)], out)]
+            exp[("intotal_link_distance", False)] = [
+                a * b for a, b in zip(exp[("inaverage_link_distance", False)], inn)]
+            exp[("outconnectivity_weighted_distance", False)] = [
+                math.fsum(R[i, j] * cosl[j] for j in range(n) if Ai[i, j]) / (outdeg[i] * tot)
+                if outdeg[i] else 0.0 for i in range(n)]
+            exp[("inconnectivity_weighted_distance", False)] = [
+                math.fsum(R[i, j] * cosl[i] for i in range(n) if Ai[i, j]) / (indeg[j] * tot)
+                if indeg[j] else 0.0 for j in range(n)]
+            if not directed:
+                exp[("total_link_distance", False)] = exp[("outtotal_link_distance", False)]
+                exp[("connectivity_weighted_distance", False)] = \
+                    exp[("outconnectivity_weighted_distance", False)]
+        impl_vals = {}
+        for (nm, corr), e in exp.items():
             try:
-                got = [float(v) for v in getattr(net, nm)()]
+                with np.errstate(all="ignore"):
+                    if corr:
+                        got = [float(v) for v in getattr(net, nm)(geometry_corrected=True)]
+                    elif nm.endswith("average_link_distance") and rng.random() < 0.5:
+                        got = [float(v) for v in getattr(net, nm)(geometry_corrected=False)]
+                    else:
+                        got = [float(v) for v in getattr(net, nm)()]
             except Exception as ex:  # noqa
                 ctx.fail({"kind": "link-distance", "method": nm, "error": type(ex).__name__},
                          f"{nm} raised {type(ex).__name__}: {ex}",
-                         dict(desc, adjacency=A.tolist(), directed=directed))
+                         dict(desc, adjacency=A.tolist(), directed=directed,
+                              geometry_corrected=corr))
                 continue
-            if len(got) != n or any(abs(got[i] - e[i]) > tol for i in range(n)):
+            impl_vals[(nm, corr)] = got
+            ctx.count(f"link-distance:{nm}:corrected={corr}")
+            bad = len(got) != n
+            for i in range(n if not bad else 0):
+                if e[i] is None:
+                    continue                    # division by a zero mean distance: no value
+                t = tol
+                if corr:
+                    if rowmean[i] <= 8 * tol:
+                        continue                # the quotient is not determined to the accuracy
+                    t = 2 * tol * (1 + e[i]) / (rowmean[i] - tol)
+                if not (abs(got[i] - e[i]) <= t):
+                    bad = True
+            if bad:
                 ctx.fail({"kind": "link-distance", "method": nm, "directed": directed,
-                          "grid": "geo" if geo else "euclid"},
-                         f"{nm} is not the max/mean closed-form distance over the node's links",
+                          "grid": "geo" if geo else "euclid", "geometry_corrected": corr},
+                         f"{nm}(geometry_corrected={corr}) is not the max / mean / area-weighted "
+                         "closed-form distance over the node's links",
                          dict(desc, adjacency=A.tolist(), directed=directed, expected=e,
-                              observed=got))
+                              observed=got, geometry_corrected=corr))
+        # exact model requests on the implementation's own distance matrix
+        Dm = np.array(g.distance())
+        if not np.isfinite(Dm).all():
+            continue
+        dtxt = enc_ratmat(Dm.astype(np.float64).tolist())
+        atxt = enc_ratmat(Ai.tolist())
+        for (nm, corr), got in impl_vals.items():
+            mode = {"outaverage_link_distance": "out", "inaverage_link_distance": "in",
+                    "average_link_distance": "dir" if directed else "undir"}.get(nm)
+            if nm == "max_link_distance":
+                mreqs.append(f"maxld {n} {dtxt} {atxt}")
+            elif mode:
+                mreqs.append(f"ald {mode} {int(corr)} {n} {dtxt} {atxt}")
+            else:
+                continue
+            mimpl.append((got, nm))
+        if directed:
+            # `average_link_distance` of a directed network (undirected adjacency, in+out degree)
+            for corr in (False, True):
+                try:
+                    with np.errstate(all="ignore"):
+                        got = [float(v) for v in net.average_link_distance(geometry_corrected=corr)]
+                    mreqs.append(f"ald dir {int(corr)} {n} {dtxt} {atxt}")
+                    mimpl.append((got, "average_link_distance"))
+                except Exception:  # noqa
+                    pass
+
+    def judge(i, m):
+        got, nm = mimpl[i]
+        mv = [None if t == "none" else Fr(t) for t in m.split(",")] if m != "-" else []
+        if len(mv) != len(got):
+            return f"model {m} impl {got}"
+        for a, b in zip(mv, got):
+            if a is None:
+                if math.isfinite(b):
+                    return f"model: division by a zero mean distance, impl {b!r}"
+            elif nm == "max_link_distance":
+                if Fr(b) != a:
+                    return f"model {float(a)!r} impl {b!r}"
+            elif not (abs(b - float(a)) <= 2.0 ** -18 * max(abs(float(a)), 2.0 ** -100)):
+                return f"model {float(a)!r} impl {b!r}"
+        return None
+
+    custom_correspond(ctx, "Lean maxLinkDistNet / inALD / outALD / avgALD (Rat, on the "
+                      "implementation's distance matrix) ~ SpatialNetwork link distance measures "
+                      "(max exact, means rel 2^-18)", mreqs, judge)
 
 
 # --------------------------------------------------------------------------
@@ -1042,6 +1296,184 @@ def suite_climate_weights(ctx, GeoGrid, rng, ncases):
 
 
 # --------------------------------------------------------------------------
+# twins of an angular grid: caller array width / layout, node permutation, history, boundaries
+# --------------------------------------------------------------------------
+
+def angular_twins(ctx, GeoGrid, rng, g, lat, lon, D):
+    out = []
+    n = len(lat)
+    what = rng.choice(["dtype", "perm", "history", "boundaries", "none"])
+    ctx.count(f"angular:twin={what}")
+    try:
+        if what == "dtype":
+            k1, la = twin_1d(rng, lat)
+            k2, lo = twin_1d(rng, lon)
+            ctx.count(f"angular:caller-array={k1}/{k2}")
+            g2 = GeoGrid(np.arange(2), la, lo, silence_level=3)
+            if not (np.array_equal(g2.lat_sequence(), g.lat_sequence())
+                    and np.array_equal(g2.lon_sequence(), g.lon_sequence())
+                    and np.array_equal(np.array(g2.angular_distance()), D, equal_nan=True)):
+                out.append(("caller-array-width",
+                            f"grid built from {k1}/{k2} arrays of the same values gives a "
+                            "different distance matrix"))
+        elif what == "perm" and n >= 2:
+            perm = list(range(n))
+            rng.shuffle(perm)
+            g2 = GeoGrid(np.arange(2), np.array([lat[p] for p in perm]),
+                         np.array([lon[p] for p in perm]), silence_level=3)
+            if not np.array_equal(np.array(g2.angular_distance()), D[np.ix_(perm, perm)],
+                                  equal_nan=True):
+                out.append(("permutation", f"relabelling the nodes by {perm} does not permute "
+                                           "the distance matrix"))
+        elif what == "history" and n >= 1:
+            D0 = D.copy()
+            for _ in range(rng.randrange(2, 6)):
+                op = rng.choice(["node_number", "tables", "distance", "geomdist", "convlon"])
+                if op == "node_number":
+                    g.node_number(lat_node=rng.uniform(-90, 90), lon_node=rng.uniform(-180, 180))
+                elif op == "tables":
+                    g.cos_lat(), g.sin_lat(), g.cos_lon(), g.sin_lon()
+                elif op == "distance":
+                    g.distance()
+                elif op == "geomdist" and n >= 2 and float(D0.max()) > 0:
+                    g.geometric_distance_distribution(rng.choice([1, 2, 5]))
+                elif op == "convlon":
+                    g.convert_lon_coordinates(g.lon_sequence())
+            same = np.array_equal(np.array(g.angular_distance()), D0, equal_nan=True)
+            g.cache_clear()
+            again = np.array_equal(np.array(g.angular_distance()), D0, equal_nan=True)
+            if not (same and again):
+                out.append(("history", "angular_distance() changed after other methods of the "
+                                       f"same grid were called (cached: {same}, recomputed: {again})"))
+        elif what == "boundaries" and n >= 1:
+            b = g.boundaries()
+            la32, lo32 = g.lat_sequence(), g.lon_sequence()
+            exp = {"lat_min": la32.min(), "lat_max": la32.max(),
+                   "lon_min": lo32.min(), "lon_max": lo32.max()}
+            if any(float(b[k]) != float(v) for k, v in exp.items()):
+                out.append(("boundaries", f"boundaries() {b} != min/max of the lat/lon sequences"))
+            gd = g.grid()
+            if not (np.array_equal(gd["lat"], la32) and np.array_equal(gd["lon"], lo32)):
+                out.append(("boundaries", "grid()['lat'/'lon'] are not the lat/lon sequences"))
+    except Exception as e:  # noqa
+        out.append(("twin-error", f"{what}: {type(e).__name__}: {e}"))
+    return out
+
+
+def euclid_twins(ctx, Grid, rng, g, X, d, n, D, kind):
+    out = []
+    what = rng.choice(["dtype", "perm", "scale", "scale", "history", "none"])
+    ctx.count(f"euclid:twin={what}")
+    Xa = np.array(X, dtype=np.float64).reshape(d, n)
+    try:
+        if what == "dtype":
+            k, Xt = twin_2d(rng, Xa)
+            ctx.count(f"euclid:caller-array={k}")
+            g2 = Grid(np.arange(2), Xt, silence_level=3)
+            if not np.array_equal(np.array(g2.euclidean_distance()), D, equal_nan=True):
+                out.append(("caller-array-width", f"grid built from a {k} array of the same values "
+                                                  "gives a different distance matrix"))
+        elif what == "perm" and n >= 2:
+            perm = list(range(n))
+            rng.shuffle(perm)
+            g2 = Grid(np.arange(2), Xa[:, perm], silence_level=3)
+            if not np.array_equal(np.array(g2.euclidean_distance()), D[np.ix_(perm, perm)],
+                                  equal_nan=True):
+                out.append(("permutation", f"relabelling the nodes by {perm} does not permute "
+                                           "the distance matrix"))
+        elif what == "scale" and n >= 2:
+            # exact rescaling by a power of two: every distance is rescaled by the same power
+            # (float32 stays far from overflow / underflow: |x| <= 2^47, squares >= 2^-110)
+            k = rng.choice([-10, -6, -1, 1, 9, 20, 30])
+            ctx.count(f"euclid:scale=2^{k}")
+            g2 = Grid(np.arange(2), Xa * 2.0 ** k, silence_level=3)
+            D2 = np.array(g2.euclidean_distance()).astype(np.float64)
+            E = D.astype(np.float64) * 2.0 ** k
+            ulp = np.spacing(np.maximum(D2, E).astype(np.float32)).astype(np.float64)
+            if np.isnan(D2).any() or (np.abs(D2 - E) > ulp).any():
+                i, j = np.argwhere(~(np.abs(D2 - E) <= ulp))[0]
+                out.append(("power-of-two-scaling",
+                            f"coordinates * 2^{k}: distance [{i},{j}] = {D2[i, j]!r}, "
+                            f"expected {E[i, j]!r} (2^{k} * the unscaled distance)"))
+        elif what == "history" and n >= 1:
+            D0 = D.copy()
+            for _ in range(rng.randrange(2, 5)):
+                op = rng.choice(["node_number", "distance", "geomdist", "coords"])
+                if op == "node_number":
+                    g.node_number(tuple(rng.uniform(-10, 10) for _ in range(d)))
+                elif op == "distance":
+                    g.distance()
+                elif op == "geomdist" and n >= 2 and float(D0.max()) > 0:
+                    g.geometric_distance_distribution(rng.choice([1, 2, 5]))
+                elif op == "coords":
+                    g.node_coordinates(rng.randrange(n)), g.sequence(rng.randrange(d))
+            same = np.array_equal(np.array(g.euclidean_distance()), D0, equal_nan=True)
+            g.cache_clear()
+            again = np.array_equal(np.array(g.euclidean_distance()), D0, equal_nan=True)
+            if not (same and again):
+                out.append(("history", "euclidean_distance() changed after other methods of the "
+                                       f"same grid were called (cached: {same}, recomputed: {again})"))
+    except Exception as e:  # noqa
+        out.append(("twin-error", f"{what}: {type(e).__name__}: {e}"))
+    return out
+
+
+# --------------------------------------------------------------------------
+# K. GeoGrid.convert_lon_coordinates, exact
+# --------------------------------------------------------------------------
+
+def suite_convlon(ctx, GeoGrid, rng, ncases):
+    reqs, impl = [], []
+    for c in range(ncases):
+        n = rng.choice([1, 2, 3, 5, 8])
+        g = GeoGrid(np.arange(2), np.zeros(n), np.array([float(rng.randrange(0, 360))
+                                                          for _ in range(n)]), silence_level=3)
+        m = n + rng.choice([0, 0, 0, 0, 2, -1])
+        kind = rng.choice(["0-360", "0-360", "edge", "wide"])
+        lon = []
+        for _ in range(m):
+            if kind == "edge":
+                lon.append(Fr(rng.choice([0, 180, 360, -180, 720, 721, 719, 1441, 1439]), 4)
+                           if rng.random() < 0.5 else Fr(rng.choice([180, 360, 0, 181, 179])))
+            elif kind == "wide":
+                lon.append(Fr(rng.randrange(-4 * 400, 4 * 800), 4))
+            else:
+                lon.append(Fr(rng.randrange(0, 4 * 360 + 1), 4))
+        arr = np.array([float(v) for v in lon])
+        if rng.random() < 0.3:
+            arr = arr.astype(np.float32)
+        try:
+            got = np.asarray(g.convert_lon_coordinates(arr), dtype=np.float64)
+            ans = enc_rats(got.tolist())
+        except Exception as e:  # noqa
+            got, ans = None, "raise:" + type(e).__name__
+        reqs.append(f"convlon {n} {enc_rats(lon)}")
+        impl.append(ans)
+        ctx.count(f"convlon:{kind}")
+        ctx.count("convlon:len-short" if m < n else "convlon:len-long" if m > n else "convlon:len=N")
+        ctx.case(("cl", reqs[-1]), any(v > 180 for v in lon) and any(v <= 180 for v in lon),
+                 {"suite": "convert_lon_coordinates", "request": reqs[-1], "answer": ans}
+                 if n <= 3 else None)
+        # oracle: same point of the sphere; [0, 360] is mapped into (-180, 180]
+        if m >= n:
+            bad = None
+            if got is None or len(got) != n:
+                bad = f"no sequence of {n} longitudes returned ({ans})"
+            else:
+                for i in range(n):
+                    a, b = math.radians(float(lon[i])), math.radians(float(got[i]))
+                    if abs(math.cos(a) - math.cos(b)) > 1e-12 or abs(math.sin(a) - math.sin(b)) > 1e-12:
+                        bad = f"longitude {float(lon[i])} converted to {float(got[i])}: another point"
+                    elif 0 <= lon[i] <= 360 and not (-180 < got[i] <= 180):
+                        bad = f"longitude {float(lon[i])} converted to {float(got[i])}, outside (-180, 180]"
+            if bad:
+                ctx.fail({"kind": "convert-lon", "class": "GeoGrid", "method": "convert_lon_coordinates"},
+                         "GeoGrid.convert_lon_coordinates: " + bad,
+                         {"N": n, "lon_seq": [float(v) for v in lon], "observed": ans})
+    ctx.correspond("Lean convertLon (Rat) == GeoGrid.convert_lon_coordinates", reqs, impl)
+
+
+# --------------------------------------------------------------------------
 # replay of a recorded violation:  ./check C12 --replay replays/C12_....json
 # --------------------------------------------------------------------------
 
@@ -1107,6 +1539,17 @@ def replay(ctx, rp):
         if w is None or any(abs(float(w[i]) - exp[i]) > TOL_W for i in range(len(lat))):
             ctx.fail(sig, f"{sig['class']}.node_weights are not the cos-lat weights",
                      dict(r, expected=exp, observed=None if w is None else [float(v) for v in w]))
+    elif kind == "convert-lon":
+        n, lon = r["N"], r["lon_seq"]
+        g = GeoGrid(np.arange(2), np.zeros(n), np.zeros(n), silence_level=3)
+        got = [float(v) for v in g.convert_lon_coordinates(np.array(lon))]
+        for a, b in zip(lon, got):
+            ra, rb = math.radians(a), math.radians(b)
+            if abs(math.cos(ra) - math.cos(rb)) > 1e-12 or abs(math.sin(ra) - math.sin(rb)) > 1e-12 \
+                    or (0 <= a <= 360 and not (-180 < b <= 180)):
+                ctx.fail(sig, f"GeoGrid.convert_lon_coordinates: longitude {a} converted to {b}",
+                         dict(r, observed=got))
+                break
     else:
         print(f"[C12] no replay routine for signature {sig}; run ./check C12 with the same "
               "VERIF_SEED to regenerate the case")
